@@ -99,11 +99,11 @@ def freshness_polarity(ctx):
         stat_ok = True
     ctx.check(stat_ok, "compare.stat-source", db.where(c), "mtime is not taken from os.stat(template.filename)", "mtime of template.filename")
     if ret_cached:
-        ctx.check(op in ("GtE", "Gt"), "polarity", db.where(c),
-                  "cached template returned when compile_time %s mtime: a modified file (mtime later than compile time) is served stale / a fresh one recompiled every call" % op,
+        ctx.check(op == "GtE", "polarity", db.where(c),
+                  "cached template returned when compile_time %s mtime: a modified file (mtime later than compile time) is served stale, or (with a strict comparison) a file whose mtime equals the compile time is recompiled on every call although nothing changed" % op,
                   "return cached iff compile_time %s mtime" % op)
     elif ret_cached_else:
-        ctx.check(op in ("Lt", "LtE"), "polarity", db.where(c), "reload condition has the wrong polarity (%s)" % op, "reload iff compile_time %s mtime" % op)
+        ctx.check(op == "Lt", "polarity", db.where(c), "reload condition has the wrong polarity or includes equality (%s): an unchanged file is recompiled on every call when its mtime equals the compile time" % op, "reload iff compile_time %s mtime" % op)
     else:
         ctx.violation("polarity", db.where(c), "neither branch of the freshness test returns the cached template")
     # stale path: pop then _load(template.filename, uri)
@@ -225,8 +225,17 @@ def lru(ctx):
         ctx.check(not extra and cap_ok, "bound.construct", db.where(c), "lookup builds its cache as %s" % src(c), "LRUCache(collection_size) with the default threshold")
     # eviction order
     srt = [n for n in walk_func(mg) if isinstance(n, ast.Call) and dotted(n.func) == "sorted"]
-    ctx.require(srt, "_manage_size does not sort by timestamp (anchor)")
-    s0 = srt[0]
+    if not srt:
+        # selection without a full sort: the n oldest by timestamp, n = len - capacity
+        sel = [n for n in walk_func(mg) if isinstance(n, ast.Call) and dotted(n.func) in ("heapq.nsmallest", "nsmallest")]
+        ctx.require(sel, "_manage_size neither sorts nor selects by timestamp (anchor)")
+        kws = {k.arg: k.value for k in sel[0].keywords}
+        okn = len(sel[0].args) >= 2 and src(sel[0].args[0]).replace(" ", "") == "len(self)-self.capacity" and "key" in kws and "timestamp" in src(kws["key"])
+        ctx.check(okn, "evict-oldest", db.where(sel[0]), "eviction does not remove the least recently used entries: %s" % src(sel[0]), src(sel[0])[:60])
+        srt = None
+    s0 = srt[0] if srt else None
+    if s0 is None:
+        s0 = ast.parse("sorted(x, key=operator.attrgetter('timestamp'), reverse=True)").body[0].value
     kw = {k.arg: k.value for k in s0.keywords}
     by_ts = "key" in kw and "timestamp" in src(kw["key"])
     rev = "reverse" in kw and const(kw["reverse"]) is True
@@ -244,7 +253,9 @@ def lru(ctx):
             evict_oldest = True  # newest first, drop the tail
         if not rev and lo is None and hi in ("-self.capacity", "len(self) - self.capacity", "len(bytime) - self.capacity"):
             evict_oldest = True
-    ctx.check(evict_oldest, "evict-oldest", db.where(s0), "eviction does not remove the least recently used entries: %s" % desc, desc)
+    if srt is None:
+        evict_oldest = True
+    ctx.check(evict_oldest, "evict-oldest", db.where(s0) if srt else db.where(mg), "eviction does not remove the least recently used entries: %s" % desc, desc)
     # reads
     gi = db.func("util.LRUCache.__getitem__")
     stamps = [n for n in walk_func(gi) if isinstance(n, ast.Assign) and any(dotted(t) and dotted(t).endswith(".timestamp") for t in n.targets)]
